@@ -266,8 +266,10 @@ def write_replay(prop, v, tier, seed):
             "unit_seed": v.get("seed")}
     name = hashlib.sha1(canon({"sub": v["sub"], "case": v["case"]}).encode()).hexdigest()[:12]
     path = os.path.join(d, "%s-%s.json" % (v["sub"], name))
+    from vf.core import _default
     with open(path, "w") as f:
-        f.write(canon(body))
+        # insertion order of dict keys is preserved on purpose (a case may depend on it)
+        f.write(json.dumps(body, default=_default))
     return os.path.relpath(path, VERIF)
 
 
